@@ -98,7 +98,16 @@ def gen_world(r, nmax=12, gm=None, allow_raise=False, horizon=None):
                 ok = False
             certs.append(dict(kind=kind, data=data, sig=sig, exp=exp, static_ok=ok and g in keys, ok=ok and g in keys and exp > now,
                               garbage=(kind == "signed-garbage" and g in keys)))
-        servers.append(dict(id=sid, seed=seed, connected=r.random() < 0.85, certs=certs))
+        raw_bad = None
+        if r.random() < 0.1:
+            # one entry of "grid-manager-certificates" that SignedCertificate.load cannot parse: the announcement is
+            # unusable as a whole (the server object is never built), whatever else the list holds
+            good = {"certificate": c33.cert_bytes(pub, (now + timedelta(days=30)).isoformat()).decode(), "signature": "aaaa"}
+            raw_bad = (r.randrange(len(certs) + 1),
+                       r.choice([dict(good, signature="!!not base32!!"), dict(good, signature=good["signature"].upper() + "1"),
+                                 {"certificate": good["certificate"]}, {"signature": "aaaa"}, "a string, not a dict", 17, None,
+                                 dict(good, certificate=5), dict(good, signature=["aaaa"]), ["certificate", "signature"]]))
+        servers.append(dict(id=sid, seed=seed, connected=r.random() < 0.85, certs=certs, unparseable=raw_bad))
     ids = [s["id"] for s in servers]
     preferred = tuple(x for x in ids if r.random() < 0.3)
     if r.random() < 0.3:
@@ -149,13 +158,23 @@ def build_broker(W, order, cfg, preferred=None, scc=None):
         ann = {"anonymous-storage-FURL": FURL}
         if s["seed"] is not None:
             ann["permutation-seed-base32"] = base32.b2a(s["seed"]).decode("ascii")
-        if s["certs"]:
+        if s["certs"] or s.get("unparseable"):
             ann["grid-manager-certificates"] = [{"certificate": c["data"].decode("utf-8"), "signature": base32.b2a(c["sig"]).decode("ascii")}
                                                 for c in s["certs"]]
-        sb.test_add_rref(s["id"], FakeRref(s["id"]), ann)
+            if s.get("unparseable"):
+                ann["grid-manager-certificates"].insert(*s["unparseable"])
+        try:
+            sb.test_add_rref(s["id"], FakeRref(s["id"]), ann)
+        except Exception:
+            continue                      # the announcement is refused: the broker does not know this server
         if not s["connected"]:
             sb.servers[s["id"]]._is_connected = False
     return sb
+
+
+def usable(s):
+    """Can a server object be built from this server's announcement at all?"""
+    return not s.get("unparseable")
 
 
 class FakeBucket(object):
@@ -194,7 +213,7 @@ class FakeRref(object):
 
 def expected_order(W, for_upload, seeds):
     """Independent oracle: sorted by (not preferred, SHA-1(psi + seed)); returns (list of ids, has_ties) or 'raise'."""
-    cand = [s for s in W["servers"] if s["connected"]]
+    cand = [s for s in W["servers"] if s["connected"] and usable(s)]
     if for_upload:
         if any(rule_raises(W, s) for s in cand):
             return "raise", False
@@ -215,7 +234,8 @@ def srv_term(W, s, idx, seed, spk_ids, bad=False):
 def describe(W):
     return {"keys": W["keys"], "now": W["now"].isoformat(), "psi": W["psi"].hex(), "preferred": [p.decode() for p in W["preferred"]],
             "servers": [{"id": s["id"].decode(), "seed": None if s["seed"] is None else s["seed"].hex(), "connected": s["connected"],
-                         "certs": [c["kind"] + (":ok" if c["ok"] else "") for c in s["certs"]]} for s in W["servers"]]}
+                         "certs": [c["kind"] + (":ok" if c["ok"] else "") for c in s["certs"]],
+                         "unparseable_certificate_entry": repr(s["unparseable"]) if s.get("unparseable") else None} for s in W["servers"]]}
 
 
 @contextlib.contextmanager
@@ -248,7 +268,20 @@ def order_case(ctx, i, cfg, terms, info, stream="order"):
         sb2 = build_broker(W, order2, cfg)
         seeds = dict((sid, srv.get_permutation_seed()) for sid, srv in sb1.servers.items())
         for s in W["servers"]:
-            if s["seed"] is not None and seeds[s["id"]] != s["seed"]:
+            srv = sb1.servers.get(s["id"])
+            if s.get("unparseable") and srv is not None and W["keys"] and not any(c["ok"] for c in s["certs"]):
+                try:
+                    ok = srv.upload_permitted()
+                except Exception:
+                    ok = False
+                if ok:
+                    ctx.oracle_fail("upload-permitted-with-unparseable-certificates",
+                                    "grid-manager keys are configured and server %s announces a certificate list with an entry that cannot be parsed (%s) and no valid "
+                                    "certificate; the broker nevertheless holds a server object for it whose upload_permitted() is True"
+                                    % (s["id"].decode(), repr(s["unparseable"][1])[:80]),
+                                    case=dict(describe(W), stream=stream, index=i), expected="not an upload candidate", observed="upload_permitted() = True")
+        for s in W["servers"]:
+            if s["seed"] is not None and s["id"] in seeds and seeds[s["id"]] != s["seed"]:
                 ctx.oracle_fail("permutation-seed-not-from-announcement", "server %r: get_permutation_seed() differs from the announced seed" % s["id"],
                                 case=dict(describe(W), stream=stream, index=i), expected=s["seed"].hex(), observed=seeds[s["id"]].hex())
         both = []
@@ -570,7 +603,7 @@ def aging(ctx, cfg, terms, info, only=None):
                 perm = dict((sid, srv.upload_permitted()) for sid, srv in sb.servers.items())
                 want, ties = expected_order(W, True, seeds)
                 ctx.case(("aging", tuple(sorted(seeds.items())), W["psi"], t, tuple(got)), kind="aging")
-                stale = [s["id"] for s in W["servers"] if perm[s["id"]] is not rule_permitted(W, s)]
+                stale = [s["id"] for s in W["servers"] if s["id"] in perm and usable(s) and perm[s["id"]] is not rule_permitted(W, s)]
                 if stale:
                     sid = stale[0]
                     ctx.oracle_fail("upload-permission-stale" if perm[sid] else "upload-permission-denied-despite-valid-certificate",
